@@ -9,6 +9,7 @@
 package main
 
 import (
+	"bytes"
 	"crypto/rand"
 	"encoding/binary"
 	"encoding/hex"
@@ -16,12 +17,16 @@ import (
 	"flag"
 	"fmt"
 	mrand "math/rand"
+	"net"
 	"net/netip"
 	"os"
 	"path/filepath"
 	"sort"
 	"strings"
 	"time"
+
+	"golang.zx2c4.com/wireguard/conn"
+	"golang.zx2c4.com/wireguard/device"
 
 	"wgv/cosim"
 	"wgv/ref"
@@ -36,7 +41,7 @@ type Elem struct {
 }
 
 type Plan struct {
-	Op      string `json:"op"` // init, resp, cookie, other, batch, tun, uapi, shifths
+	Op      string `json:"op"` // init, resp, cookie, other, batch, tun, uapi, shifths, restart
 	Peer    int    `json:"peer,omitempty"`
 	From    int    `json:"from,omitempty"`
 	Mac1    string `json:"mac1,omitempty"`    // ok, junk
@@ -63,6 +68,15 @@ type Case struct {
 	Gallina string    `json:"-"`
 	Slow    int       `json:"slow,omitempty"`
 	Batch   int       `json:"batch,omitempty"`
+	Loop    *Loopback `json:"loopback,omitempty"`
+}
+
+// Loopback is the verdict of the pass over the real conn.StdNetBind (judged in Go).
+type Loopback struct {
+	Status string   `json:"status"` // ok, skipped, violation
+	Detail string   `json:"detail"`
+	Checks int      `json:"checks"`
+	Log    []string `json:"log,omitempty"`
 }
 
 const baseNs = int64(1_000_000_000_000)
@@ -597,6 +611,20 @@ func (r *run) exec(pl Plan, recs *[]StepRec) bool {
 		obs, txt, eps, moved := r.observe(out, 0, 0, nil)
 		rec.Event = fmt.Sprintf("EB %d [%s]", t, strings.Join(els, "; "))
 		rec.Obs, rec.Outs, rec.Eps, rec.Moved, settled = obs, txt, eps, moved, out.Settled
+	case "restart":
+		// Device.Down then Device.Up: every peer is stopped (sessions, handshake state and staged packets
+		// are dropped) and started again
+		t := r.now()
+		if err := r.w.Dev.Down(); err != nil {
+			panic(err)
+		}
+		if err := r.w.Dev.Up(); err != nil {
+			panic(err)
+		}
+		out := r.w.Take()
+		obs, txt, eps, moved := r.observe(out, 0, 0, nil)
+		rec.Event = fmt.Sprintf("ERS %d", t)
+		rec.Obs, rec.Outs, rec.Eps, rec.Moved, settled = obs, txt, eps, moved, out.Settled
 	case "tun":
 		pi := pl.Peer % len(r.peers)
 		pkt := ref.IPv4([4]byte{10, 9, 9, 9}, tunDst[pi], 60, byte(pi))
@@ -836,13 +864,58 @@ func genTwoSessions(r *mrand.Rand) []Plan {
 	return p
 }
 
+// replays of earlier valid initiations, responses and transport messages from other addresses after the
+// device went Down and Up again (a restart must not make the responder forget what it has already seen)
+func genRestart(r *mrand.Rand) []Plan {
+	pi := r.Intn(3)
+	var p []Plan
+	role := r.Intn(3)
+	if role == 2 && pi != 2 {
+		p = append(p, handshakeAsInitiator(pi, pi)...)
+	} else {
+		p = append(p, handshakeAsResponder(pi, []int{pi, pi, 4, 6}[r.Intn(4)])...)
+		if r.Intn(2) == 0 {
+			p = append(p, handshakeAsResponder(pi, r.Intn(len(addrTable)))...)
+		}
+	}
+	if r.Intn(2) == 0 {
+		p = append(p, batchOf(Elem{Peer: pi, From: r.Intn(len(addrTable)), Kind: "good"}), Plan{Op: "tun", Peer: pi})
+	}
+	p = append(p, Plan{Op: "restart"})
+	if r.Intn(3) == 0 {
+		p = append(p, Plan{Op: "restart"})
+	}
+	n := 2 + r.Intn(4)
+	for i := 0; i < n; i++ {
+		from := r.Intn(len(addrTable))
+		switch r.Intn(6) {
+		case 0, 1:
+			p = append(p, Plan{Op: "init", Peer: pi, From: from, Mac1: "ok", Content: "replay"})
+		case 2:
+			p = append(p, Plan{Op: "init", Peer: pi, From: from, Mac1: "ok", Content: "oldts"})
+		case 3:
+			p = append(p, batchOf(Elem{Peer: pi, From: from, Kind: []string{"replay", "good", "oldsess", "jump"}[r.Intn(4)]}))
+		case 4:
+			p = append(p, Plan{Op: "resp", Peer: pi, From: from, Mac1: "ok", Content: "replay"})
+		case 5:
+			p = append(p, Plan{Op: "tun", Peer: pi})
+		}
+	}
+	// where does the device send now, and does a genuine new initiation still move it
+	p = append(p, Plan{Op: "tun", Peer: pi}, Plan{Op: "init", Peer: pi, From: r.Intn(len(addrTable)), Mac1: "ok", Content: "good"},
+		Plan{Op: "init", Peer: pi, From: r.Intn(len(addrTable)), Mac1: "ok", Content: "replay"}, Plan{Op: "tun", Peer: pi})
+	return p
+}
+
 func genMix(r *mrand.Rand) []Plan {
 	var p []Plan
 	n := 8 + r.Intn(12)
 	for i := 0; i < n; i++ {
 		pi := r.Intn(3)
 		from := r.Intn(len(addrTable))
-		switch r.Intn(10) {
+		switch r.Intn(11) {
+		case 10:
+			p = append(p, Plan{Op: "restart"})
 		case 0, 1:
 			p = append(p, Plan{Op: "init", Peer: []int{pi, pi, pi, 9}[r.Intn(4)], From: from, Mac1: []string{"ok", "ok", "junk"}[r.Intn(3)],
 				Content: []string{"good", "good", "replay", "corruptstatic", "corruptts", "oldts", "flood"}[r.Intn(7)]})
@@ -871,6 +944,208 @@ func genMix(r *mrand.Rand) []Plan {
 	return p
 }
 
+// ---------------------------------------------------------------- loopback pass over the real StdNetBind
+
+// loopback runs the device on conn.NewStdNetBind() over 127.0.0.1 (and ::1 when available): the remote peer and a
+// stranger are plain UDP sockets.  After the peer's endpoint was LEARNT from an authentic packet, datagrams
+// of every kind from the stranger (and forged ones "from the peer's key" without valid content) must leave the
+// endpoint (IpcGet) where it is, and the next datagrams for the peer (triggered by TUN packets) must still
+// arrive at the peer's socket and not at the stranger's.  Then the peer roams to a second socket with an
+// authentic packet and the checks are repeated.  Skipped (never a violation) when sockets are unavailable.
+func loopback() *Loopback {
+	lb := &Loopback{Status: "skipped"}
+	fams := []string{"127.0.0.1", "::1"}
+	done := 0
+	for _, host := range fams {
+		st, detail, checks, lg := loopbackFamily(host)
+		lb.Log = append(lb.Log, lg...)
+		lb.Checks += checks
+		switch st {
+		case "violation":
+			lb.Status, lb.Detail = "violation", host+": "+detail
+			return lb
+		case "ok":
+			done++
+		default:
+			lb.Log = append(lb.Log, host+": skipped: "+detail)
+		}
+	}
+	if done > 0 {
+		lb.Status = "ok"
+		lb.Detail = fmt.Sprintf("%d address families, %d checks", done, lb.Checks)
+	} else {
+		lb.Detail = "no loopback UDP sockets"
+	}
+	return lb
+}
+
+func udpSock(host string) (*net.UDPConn, netip.AddrPort, error) {
+	c, err := net.ListenUDP("udp", &net.UDPAddr{IP: net.ParseIP(host), Port: 0})
+	if err != nil {
+		return nil, netip.AddrPort{}, err
+	}
+	ap := c.LocalAddr().(*net.UDPAddr).AddrPort()
+	return c, netip.AddrPortFrom(ap.Addr().Unmap(), ap.Port()), nil
+}
+
+func readOne(c *net.UDPConn, d time.Duration) []byte {
+	buf := make([]byte, 2048)
+	c.SetReadDeadline(time.Now().Add(d))
+	n, _, err := c.ReadFromUDP(buf)
+	if err != nil {
+		return nil
+	}
+	return buf[:n]
+}
+
+func loopbackFamily(host string) (status, detail string, checks int, lg []string) {
+	peerSock, peerAddr, err := udpSock(host)
+	if err != nil {
+		return "skipped", err.Error(), 0, nil
+	}
+	defer peerSock.Close()
+	roamSock, roamAddr, err := udpSock(host)
+	if err != nil {
+		return "skipped", err.Error(), 0, nil
+	}
+	defer roamSock.Close()
+	strSock, strAddr, err := udpSock(host)
+	if err != nil {
+		return "skipped", err.Error(), 0, nil
+	}
+	defer strSock.Close()
+
+	tunDev := sim.NewTun(1, 1420)
+	dev := device.NewDevice(tunDev, conn.NewStdNetBind(), device.NewLogger(device.LogLevelSilent, ""))
+	defer dev.Close()
+	devPriv := ref.NewPrivate()
+	devPub := ref.PubOf(devPriv)
+	p := cosim.NewPeer("L", "", "10.0.0.2/32")
+	cfg := fmt.Sprintf("private_key=%s\nlisten_port=0\npublic_key=%s\nallowed_ip=10.0.0.2/32\n", hex.EncodeToString(devPriv[:]), hex.EncodeToString(p.Pub[:]))
+	if err := dev.IpcSet(cfg); err != nil {
+		return "skipped", "IpcSet: " + err.Error(), 0, nil
+	}
+	if err := dev.Up(); err != nil {
+		return "skipped", "Up: " + err.Error(), 0, nil
+	}
+	port := 0
+	get, _ := dev.IpcGet()
+	for _, l := range strings.Split(get, "\n") {
+		if strings.HasPrefix(l, "listen_port=") {
+			fmt.Sscanf(l, "listen_port=%d", &port)
+		}
+	}
+	if port == 0 {
+		return "skipped", "no listen port", 0, nil
+	}
+	devUDP := &net.UDPAddr{IP: net.ParseIP(host), Port: port}
+	endpoint := func() string {
+		g, _ := dev.IpcGet()
+		for _, l := range strings.Split(g, "\n") {
+			if strings.HasPrefix(l, "endpoint=") {
+				return strings.TrimPrefix(l, "endpoint=")
+			}
+		}
+		return ""
+	}
+	// genuine handshake from peerSock
+	ts := uint64(time.Now().UnixNano())
+	handshake := func(sock *net.UDPConn) (*ref.Session, []byte) {
+		ts += 1e9
+		p.NextIdx++
+		st := ref.CreateInitiation(p.Priv, ref.NewPrivate(), devPub, p.Psk, p.NextIdx, ref.Tai64nRaw(0x400000000000000a+ts/1e9, uint32(ts%1e9)))
+		sock.WriteToUDP(st.Msg, devUDP)
+		resp := readOne(sock, 700*time.Millisecond)
+		if resp == nil {
+			return nil, st.Msg
+		}
+		sess, err := st.ConsumeResponse(resp)
+		if err != nil {
+			return nil, st.Msg
+		}
+		sock.WriteToUDP(sess.Next(nil), devUDP) // confirm
+		return sess, st.Msg
+	}
+	sess, firstInit := handshake(peerSock)
+	if sess == nil {
+		return "skipped", "no handshake over loopback", 0, nil
+	}
+	time.Sleep(20 * time.Millisecond)
+	home, homeSock, homeAddr := peerAddr.String(), peerSock, peerAddr
+	if ep := endpoint(); ep != home {
+		return "violation", fmt.Sprintf("endpoint after the handshake from %s is %s", home, ep), 1, nil
+	}
+	lg = append(lg, fmt.Sprintf("%s: endpoint learnt %s, stranger %s", host, home, strAddr))
+	inner := ref.IPv4([4]byte{10, 9, 9, 9}, [4]byte{10, 0, 0, 2}, 60, 1)
+	// after each foreign datagram: endpoint unchanged, next datagram for the peer arrives at the peer
+	check := func(what string) (string, bool) {
+		time.Sleep(10 * time.Millisecond)
+		checks++
+		if ep := endpoint(); ep != home {
+			return fmt.Sprintf("after %s from %s: endpoint = %s, want it to stay %s", what, strAddr, ep, home), false
+		}
+		tunDev.Inject(inner)
+		got := readOne(homeSock, 500*time.Millisecond)
+		if got == nil || len(got) < 32 || got[0] != ref.TypeTransport {
+			stray := readOne(strSock, 50*time.Millisecond)
+			return fmt.Sprintf("after %s from %s: the next datagram for the peer did not arrive at %s (stranger received %d bytes)", what, strAddr, home, len(stray)), false
+		}
+		if _, _, pt, err := sess.OpenTransport(got); err != nil || !bytes.Equal(pt[:len(inner)], inner) {
+			return fmt.Sprintf("after %s: datagram at the peer does not open", what), false
+		}
+		if stray := readOne(strSock, 5*time.Millisecond); stray != nil {
+			return fmt.Sprintf("after %s: the stranger received %d bytes from the device", what, len(stray)), false
+		}
+		_ = homeAddr
+		return "", true
+	}
+	junk := func(n int, tw uint32) []byte {
+		b := make([]byte, n)
+		rand.Read(b)
+		if n >= 4 {
+			binary.LittleEndian.PutUint32(b[:4], tw)
+		}
+		return b
+	}
+	round := func() (string, bool) {
+		forged := []struct {
+			what string
+			data []byte
+		}{
+			{"one byte", []byte{0}},
+			{"unknown type, 32 bytes", junk(32, 9)},
+			{"garbage initiation (148 bytes, bad MAC1)", junk(148, 1)},
+			{"garbage response (92 bytes)", junk(92, 2)},
+			{"garbage cookie reply (64 bytes)", junk(64, 3)},
+			{"transport for an unknown index", junk(48, 4)},
+			{"replayed genuine initiation", firstInit},
+			{"replayed transport message", sess.Transport(0, nil)},
+		}
+		for _, f := range forged {
+			strSock.WriteToUDP(f.data, devUDP)
+			if d, ok := check(f.what); !ok {
+				return d, false
+			}
+		}
+		return "", true
+	}
+	if d, ok := round(); !ok {
+		return "violation", d, checks, lg
+	}
+	// the peer roams: an authentic fresh transport message from another socket moves the endpoint there
+	roamSock.WriteToUDP(sess.Next(nil), devUDP)
+	time.Sleep(10 * time.Millisecond)
+	checks++
+	if ep := endpoint(); ep != roamAddr.String() {
+		return "violation", fmt.Sprintf("authentic transport message from %s did not move the endpoint (it is %s)", roamAddr, ep), checks, lg
+	}
+	home, homeSock, homeAddr = roamAddr.String(), roamSock, roamAddr
+	if d, ok := round(); !ok {
+		return "violation", "after roaming: " + d, checks, lg
+	}
+	return "ok", "", checks, lg
+}
+
 // ---------------------------------------------------------------- output
 
 func writeShard(path string, cases []Case) error {
@@ -893,6 +1168,7 @@ func main() {
 	out := flag.String("out", "out/C11", "output directory")
 	replayIn := flag.String("replay", "", "JSON file with cases (plans) to run")
 	corpus := flag.String("corpus", "", "directory of corpus JSON cases to run first")
+	noLoop := flag.Bool("noloopback", false, "skip the pass over the real StdNetBind on loopback")
 	flag.Parse()
 	if err := os.MkdirAll(*out, 0o755); err != nil {
 		panic(err)
@@ -908,6 +1184,10 @@ func main() {
 			panic(err)
 		}
 		for _, c := range in {
+			if c.Loop != nil {
+				cases = append(cases, Case{Gen: "loopback-stdnetbind", Loop: loopback(), Gallina: fmt.Sprintf("mk %d [] []", baseNs)})
+				continue
+			}
 			b := c.Batch
 			if b == 0 {
 				b = 8
@@ -938,13 +1218,16 @@ func main() {
 				}
 			}
 		}
+		if !*noLoop {
+			cases = append(cases, Case{Gen: "loopback-stdnetbind", Loop: loopback(), Gallina: fmt.Sprintf("mk %d [] []", baseNs)})
+		}
 		r := mrand.New(mrand.NewSource(*seed))
 		gens := []struct {
 			name string
 			f    func(*mrand.Rand) []Plan
 			w    int
 		}{{"roam-transport", genRoamTransport, 4}, {"roam-handshake", genRoamHandshake, 4}, {"initiator-role", genInitiatorRole, 3},
-			{"mixed-batch", genMixedBatch, 3}, {"two-sessions", genTwoSessions, 2}, {"mix", genMix, 4}}
+			{"mixed-batch", genMixedBatch, 3}, {"two-sessions", genTwoSessions, 2}, {"restart", genRestart, 4}, {"mix", genMix, 4}}
 		tot := 0
 		for _, g := range gens {
 			tot += g.w
